@@ -9,7 +9,9 @@ ROOT = Path(__file__).resolve().parent.parent
 CHECKS = {
     "C09": dict(
         technique="TLA+ spec Router.tla model-checked by TLC (router machine == reference chain of responsibility); "
-                  "every TLC-enumerated recipe replayed on the real Retort; recorded consult logs validated by Trace_Router.tla",
+                  "every TLC-enumerated recipe replayed on the real Retort (requests of a normal origin and unnormalisable requests); "
+                  "RouterNest.tla for retorts placed in recipes (isolated inner search, options resolved as requests); recorded consult logs "
+                  "validated by Trace_Router.tla",
         category="model_checking",
         text="TLC proves for every recipe up to the bound that the code-shaped routing machine (combiner, origin tables, "
              "search offsets, nested provide_from_next frames) equals the documented first-match semantics; the same runs "
@@ -51,7 +53,7 @@ CHECKS.update({
                      "exactly once, bind present fields to loaded values, and leave absent fields typed-equal (identical for singletons, "
                      "fresh for factories) to the declared default, for plain / dataclass / attrs / NamedTuple classes."),
     "C11": dict(technique="TLA+ spec Retort.tla: refinement Cached => HistoryFree model-checked by TLC (typed key equality; Python-== keys as spec "
-                          "mutant); every TLC-enumerated history replayed by the history walker against fresh equal retorts",
+                          "mutant); every TLC-enumerated history replayed by the history walker against fresh equal retorts; code->spec: the loader/dumper calls of the repository's own test-suite, harvested with their variations by a pytest plugin living in /verif and judged by Trace_Harvest.tla",
                 category="model_checking", design_ref="6/C11",
                 note="trusts: the response abstraction (behaviour vector on 18 probe data + one dump); pool of 18 confusable requests x 3 "
                      "constructions; histories of length <= 3; converter histories are covered by C13's alternating-recipe check",
@@ -145,7 +147,7 @@ CHECKS.update({
                      "every field."),
     "C20": dict(technique="TLA+ spec Heap.tla (identity rules Fresh / Disjoint / OnlyAsIsAliases over an abstract heap, TLC sanity model); heap "
                           "observations of pairs of successive equal calls recorded from the real library are judged by the total TLA+ monitor "
-                          "Trace_Heap.tla; the Layout.tla programs and the Dump.tla sweep supply the calls",
+                          "Trace_Heap.tla; the Layout.tla programs and the Dump.tla sweep supply the calls; code->spec: the loader/dumper calls of the repository's own test-suite, harvested with their variations by a pytest plugin living in /verif and judged by Trace_Harvest.tla",
                 category="model_checking", design_ref="6/C20",
                 note="trusts: vf/props/c20.py containers() / retort_reachable() (mutable = list, dict, set, deque, bytearray, model instances; "
                      "retort-reachable = closure cells, defaults, referenced globals of generated functions); as-is positions = Any/object "
@@ -185,12 +187,12 @@ CHECKS.update({
                 text="Errs(T,d,s) is the documented complete set of invalid positions; under ALL the real error tree, flattened with "
                      "trails concatenated and translated back to abstract positions by walking the datum, must equal it exactly (no "
                      "duplicates), under FIRST be one member, under DISABLE carry no trail."),
-    "C06": dict(technique=_LOAD_TECH + "; the three debug_trail programs compared pairwise on every case", category="model_checking",
+    "C06": dict(technique=_LOAD_TECH + "; the three debug_trail programs compared pairwise on every case; code->spec: the loader/dumper calls of the repository's own test-suite, harvested with their variations by a pytest plugin living in /verif and judged by Trace_Harvest.tla", category="model_checking",
                 design_ref="6/C06", note=_LOAD_NOTE,
                 text="The model's verdict does not take debug_trail as a parameter; every enumerated case is run on the three "
                      "independently generated programs (DISABLE/FIRST/ALL) for both coercion modes: same acceptance, typed-equal "
                      "results, and the single error (class, input value) must be among those collected under ALL."),
-    "C07": dict(technique=_LOAD_TECH + "; TLC invariants StrictNarrows/StrictOrigins on the documented rules, strict vs lax compared on every case",
+    "C07": dict(technique=_LOAD_TECH + "; TLC invariants StrictNarrows/StrictOrigins on the documented rules, strict vs lax compared on every case; code->spec: the loader/dumper calls of the repository's own test-suite, harvested with their variations by a pytest plugin living in /verif and judged by Trace_Harvest.tla",
                 category="model_checking", design_ref="6/C07", note=_LOAD_NOTE,
                 text="TLC proves on the documented rule set that strict acceptance is a subset of lax acceptance (equal results unless a "
                      "union is involved) and that strict acceptance implies an allowed strict origin; the same is then checked between the "
